@@ -29,6 +29,7 @@ type tierSpec struct {
 	QueryTimeoutS int      `json:"query_timeout_s"`
 	Bounds        string   `json:"bounds"`
 	NoSleepSets   bool     `json:"no_sleep_sets"`
+	CrossSolvers  []string `json:"cross_solvers"` // re-explore with these solvers and require identical verdicts
 }
 
 // violation filter: a rig shared by several properties labels its assertions
@@ -214,6 +215,35 @@ func cmdCheck(args []string) int {
 			inconclusive = append(inconclusive, h+": path limit reached before the work list was empty")
 		}
 	}
+	// cross-solver agreement: the same exploration under another solver must give
+	// the same paths and the same sat/unsat verdict counts
+	crossNotes := []string{}
+	for _, sv := range ts.CrossSolvers {
+		cfg2 := cfg
+		cfg2.Solver = sv
+		cfg2.KeepSamples = 1
+		e.Cfg = cfg2
+		for _, r := range results {
+			entry, err := e.Entry(pkgPath(spec.Pkg), r.Harness)
+			if err != nil {
+				continue
+			}
+			r2 := e.Explore(entry)
+			same := r2.Paths == r.Paths && r2.Status["done"] == r.Status["done"] && r2.Status["violation"] == r.Status["violation"] &&
+				r2.Solver.Unsat == r.Solver.Unsat && len(r2.Unknowns) == 0
+			note := fmt.Sprintf("%s under %s: paths %d/%d, unsat %d/%d, unknowns %d", r.Harness, sv, r2.Paths, r.Paths, r2.Solver.Unsat, r.Solver.Unsat, len(r2.Unknowns))
+			crossNotes = append(crossNotes, note)
+			if !same {
+				inconclusive = append(inconclusive, "cross-solver disagreement: "+note)
+			}
+		}
+		e.Cfg = cfg
+	}
+	if len(crossNotes) > 0 {
+		fmt.Println("cross-solver: " + strings.Join(crossNotes, "; "))
+	}
+	lastCrossNotes = crossNotes
+
 	// vacuity: expected labels
 	reach := map[string]int{}
 	for _, r := range results {
@@ -434,6 +464,8 @@ func cmdCheck(args []string) int {
 	return 0
 }
 
+var lastCrossNotes []string
+
 func knownHitList(m map[string]bool) []string {
 	var out []string
 	for k := range m {
@@ -602,6 +634,7 @@ func writeEvidence(verifDir string, spec *checkSpec, tier string, seed int64, re
 		"violations_detail":             viol,
 		"known_findings_hit":            knownHits,
 		"exhaustive":                    len(inconclusive) == 0,
+		"cross_solver_agreement":        lastCrossNotes,
 	}
 	if states == 0 {
 		cov["states"] = 1
